@@ -189,6 +189,44 @@ theorem ellipse_contains_rect_partial (w h rx ry : Rat) (hrx : 0 < rx) (hry : 0 
     rw [div_le_iff₀ (by positivity)]; nlinarith
   linarith
 
+theorem ceilR_eq (x : Rat) (n : Int) (h1 : ((n - 1 : Int) : Rat) < x) (h2 : x ≤ (n : Rat)) : ceilR x = (n : Rat) := by
+  unfold ceilR
+  have a : x.ceil ≤ n := Rat.ceil_le_iff.mpr h2
+  have b : n - 1 < x.ceil := Rat.lt_ceil_iff.mpr h1
+  have : x.ceil = n := by omega
+  rw [this]
+
+/-- **counterexample (cloud)**: content 546.25 × 457.25, padding 69.25 × 33.25.  The padded content has aspect ratio 1.2548,
+    just above `CLOUD_WIDE_ASPECT_BOUNDARY` = 1.2473, so `GetDimensionsToFit` uses the *wide* table (752 × 896); the hint
+    d2graph passes is the aspect of the unpadded content, 1.1946, for which `GetInnerBox` uses the *square* table: the
+    inner box is 752 × 0.663 = 498.6 px wide, 47 px less than the content.  Replayed on lib/shape. -/
+theorem C27_cx_cloud_category_flip :
+    cloudFit (2185 / 4) (1829 / 4) (277 / 4) (133 / 4) = (752, 896) ∧
+    (cloudInner (some (cloudHint (2185 / 4) (1829 / 4))) 752 896).w < 2185 / 4 := by
+  have c1 : cloudCat (2185 / 4 + 277 / 4) (1829 / 4 + 133 / 4) = .wide := by
+    unfold cloudCat cloudWideBoundary cloudWideInnerWidth cloudWideInnerHeight
+    norm_num
+  have c2 : cloudCat (2185 / 4) (1829 / 4) = .square := by
+    unfold cloudCat cloudWideBoundary cloudTallBoundary cloudWideInnerWidth cloudWideInnerHeight cloudTallInnerWidth cloudTallInnerHeight
+    norm_num
+  constructor
+  · unfold cloudFit cloudFitPre
+    simp only [c1, CloudCat.innerW, CloudCat.innerH]
+    have e1 := ceilR_eq ((2185 / 4 + 277 / 4) / cloudWideInnerWidth) 752 (by norm_num [cloudWideInnerWidth]) (by norm_num [cloudWideInnerWidth])
+    have e2 := ceilR_eq ((1829 / 4 + 133 / 4) / cloudWideInnerHeight) 896 (by norm_num [cloudWideInnerHeight]) (by norm_num [cloudWideInnerHeight])
+    rw [e1, e2]; norm_num
+  · have hh : cloudHint (2185 / 4) (1829 / 4) = 2185 / 1829 := by
+      unfold cloudHint
+      simp only [c2, CloudCat.innerW, CloudCat.innerH]
+      norm_num [cloudSquareInnerWidth, cloudSquareInnerHeight]
+    have c3 : cloudCat (2185 / 1829) 1 = .square := by
+      unfold cloudCat cloudWideBoundary cloudTallBoundary cloudWideInnerWidth cloudWideInnerHeight cloudTallInnerWidth cloudTallInnerHeight
+      norm_num
+    unfold cloudInner cloudInnerCat
+    rw [hh]
+    simp only [show ((2185 : Rat) / 1829 = 0) = False by norm_num, if_false, c3, CloudCat.innerW]
+    norm_num [cloudSquareInnerWidth]
+
 /-- **counterexample (c4 person)**: content 189×189, padding 5×0.  `GetDimensionsToFit` reserves 6 % of the *width* for the
     vertical padding, `GetInnerBox` takes 2 × 3 % of the *height*: the fitted 216×288 shape has an inner box only
     185.2 px high, 3.8 px less than the content.  Replayed on lib/shape. -/
